@@ -8,7 +8,7 @@ From Scion Require Import Proofs.SegID.
 From Scion Require Import Proofs.CombinatorGraph Proofs.CombinatorRender Proofs.CombinatorPaths
   Proofs.CombinatorIfs Proofs.CombinatorSpec.
 From Scion Require Import Proofs.ProvStruct Proofs.ProvRender Proofs.ForwardView Proofs.ProvFacts
-  Proofs.ProvSlices Proofs.CombineProv.
+  Proofs.ProvSlices Proofs.ProvLoopFree Proofs.CombineProv.
 Import ListNotations.
 Import CombProv.
 Import Segment CombSpec Combinator.
@@ -166,43 +166,6 @@ Proof.
   rewrite path_ias_eq. unfold Prov.ia, Prov.hop.
   change 0 with (Prov.ph_ia Prov.dhop). now rewrite map_nth.
 Qed.
-
-Hypothesis H64' : (length (path_ias (path_of es)) <= 64)%nat.
-Hypothesis Hlf' : loop_free_path (path_of es).
-
-Lemma H64 : (length (flat_map Prov.sl_hops l) <= 64)%nat.
-Proof. rewrite path_ias_eq, map_length in H64'. exact H64'. Qed.
-
-Lemma Hlf : loop_free p.
-Proof.
-  destruct Hlf' as [A B]. cbv zeta in A, B.
-  assert (L : length (path_ias (path_of es)) = Prov.nhops p).
-  { rewrite path_ias_eq, map_length. reflexivity. }
-  rewrite L in A, B. split.
-  - intros k K1 K2. rewrite !ia_nth. now apply A.
-  - intros k K. rewrite !ia_nth. now apply B.
-Qed.
-
-Lemma chain_wf_slices : wf_slices mac t l.
-Proof.
-  apply Build_wf_slices.
-  - rewrite map_length. pose proof (chain_nonempty _ _ _ _ _ Hch) as Ne.
-    pose proof (types_ok_length _ _ (chain_types _ _ _ _ _ Hch)) as Le. cbn [rank] in Le.
-    destruct es; [congruence|cbn [length] in *; lia].
-  - apply Forall_forall. intros sl Hin. apply in_map_iff in Hin as (e & <- & He). now apply slice_len2.
-  - apply Forall_forall. intros sl Hin. apply in_map_iff in Hin as (e & <- & He). reflexivity.
-  - exact H64.
-  - intros sl h Hin Hh. apply in_map_iff in Hin as (e & <- & He).
-    destruct (edge_facts e He) as (s & _ & Np & B & G & _). now apply (slice_hop_good mac t e B).
-  - intros sl i h h' Hin Hi Hi'. apply in_map_iff in Hin as (e & <- & He).
-    destruct (edge_facts e He) as (s & _ & Np & B & G & _). now apply (slice_pair_good mac t Hwt e B i).
-  - exact chain_junction.
-  - apply Hlf.
-  - apply Hlf.
-Qed.
-
-Theorem chain_wf_prov : Prov.wf_prov_b (macq_of mac) t p = true.
-Proof. apply (wf_slices_prov mac t l). exact chain_wf_slices. Qed.
 
 (** * Interfaces *)
 Lemma slice_ifs e : In e es ->
@@ -406,5 +369,84 @@ Proof.
   unfold Prov.hop_unexpired. rewrite Hd. apply negb_true_iff. apply U.
   apply in_map. rewrite Hh. now apply nth_In.
 Qed.
+
+(** * Well-formedness *)
+Lemma p_pos : segs_pos p.
+Proof.
+  unfold segs_pos, prov_of. rewrite segs_of_slices, map_map. apply Forall_forall.
+  intros s Hs. apply in_map_iff in Hs as (e & <- & He). unfold hdr_of. cbn [Prov.sg_len].
+  pose proof (slice_len2 e He). lia.
+Qed.
+
+Lemma p_tot : total (Prov.lens p) = Prov.nhops p.
+Proof. unfold prov_of. now rewrite nhops_of_slices. Qed.
+
+Lemma p_nopeer k : Prov.sg_peer (Prov.hdr p k) = false.
+Proof.
+  unfold Prov.hdr, prov_of. rewrite segs_of_slices, map_map.
+  match goal with |- Prov.sg_peer (nth ?i ?L ?d) = _ => destruct (nth_in_or_default i L d) as [H | ->] end;
+    [|reflexivity].
+  apply in_map_iff in H as (e & <- & _). reflexivity.
+Qed.
+
+Lemma p_len2 j : (j < length (Prov.pv_segs p))%nat -> (2 <= Prov.sg_len (nth j (Prov.pv_segs p) Prov.dseg))%nat.
+Proof.
+  unfold prov_of. rewrite segs_of_slices, map_map.
+  intros H. pose proof (nth_In _ Prov.dseg H) as I.
+  apply in_map_iff in I as (e & <- & He). unfold hdr_of. cbn [Prov.sg_len]. now apply slice_len2.
+Qed.
+
+Lemma p_junction k : (S k < Prov.nhops p)%nat -> Prov.is_last p k = true -> Prov.ia p k = Prov.ia p (S k).
+Proof.
+  intros H L. assert (Hk : (k < Prov.nhops p)%nat) by lia.
+  destruct (step_next p p_pos p_tot k H L) as (I & O & _).
+  destruct (slice_pos l k Hk) as (sl & Hsl & Hd & Hh & Ho).
+  destruct (slice_pos l (S k) H) as (sl' & Hsl' & _ & Hh' & _).
+  fold p in Hsl, Hd, Hh, Ho, Hsl', Hh'. rewrite I in Hsl'. rewrite O in Hh'.
+  destruct (chain_junction _ _ _ Hsl Hsl') as [J _].
+  unfold Prov.is_last in L. apply Nat.eqb_eq in L. rewrite Hd in L. unfold hdr_of in L. cbn [Prov.sg_len] in L.
+  unfold Prov.ia. rewrite Hh, Hh'.
+  replace (Prov.seg_off (Prov.lens p) k) with (length (Prov.sl_hops sl) - 1)%nat by lia.
+  rewrite nth_last by (intros X; rewrite X in Ho; cbn in Ho; lia).
+  rewrite J. destruct (Prov.sl_hops sl'); reflexivity.
+Qed.
+
+Hypothesis H64' : (length (path_ias (path_of es)) <= 64)%nat.
+Hypothesis Hn3 : no_as_thrice (p_ifs (path_of es)).
+Hypothesis Hsd : src <> dst.
+
+Lemma H64 : (length (flat_map Prov.sl_hops l) <= 64)%nat.
+Proof. rewrite path_ias_eq, map_length in H64'. exact H64'. Qed.
+
+(** the combinator's loop filter and src <> dst give the two "not in between" conditions *)
+Lemma Hlf : loop_free p.
+Proof.
+  assert (N3 : no_as_thrice (Prov.interfaces p)) by (rewrite chain_interfaces; exact Hn3).
+  assert (D : Prov.ia p 0 <> Prov.ia p (Prov.nhops p - 1)) by (rewrite ia_first, ia_last; exact Hsd).
+  split.
+  - intros k K1 K2. apply (src_free p p_pos p_tot p_nopeer p_len2 p_junction N3 k K1 K2). congruence.
+  - intros k K. apply (dst_free p p_pos p_tot p_nopeer p_len2 p_junction N3 k K D).
+Qed.
+
+Lemma chain_wf_slices : wf_slices mac t l.
+Proof.
+  apply Build_wf_slices.
+  - rewrite map_length. pose proof (chain_nonempty _ _ _ _ _ Hch) as Ne.
+    pose proof (types_ok_length _ _ (chain_types _ _ _ _ _ Hch)) as Le. cbn [rank] in Le.
+    destruct es; [congruence|cbn [length] in *; lia].
+  - apply Forall_forall. intros sl Hin. apply in_map_iff in Hin as (e & <- & He). now apply slice_len2.
+  - apply Forall_forall. intros sl Hin. apply in_map_iff in Hin as (e & <- & He). reflexivity.
+  - exact H64.
+  - intros sl h Hin Hh. apply in_map_iff in Hin as (e & <- & He).
+    destruct (edge_facts e He) as (s & _ & Np & B & G & _). now apply (slice_hop_good mac t e B).
+  - intros sl i h h' Hin Hi Hi'. apply in_map_iff in Hin as (e & <- & He).
+    destruct (edge_facts e He) as (s & _ & Np & B & G & _). now apply (slice_pair_good mac t Hwt e B i).
+  - exact chain_junction.
+  - apply Hlf.
+  - apply Hlf.
+Qed.
+
+Theorem chain_wf_prov : Prov.wf_prov_b (macq_of mac) t p = true.
+Proof. apply (wf_slices_prov mac t l). exact chain_wf_slices. Qed.
 
 End Main.
